@@ -275,7 +275,7 @@ func raceChild(args []string) {
 	_ = frac.Info{}
 }
 
-var raceFrame = regexp.MustCompile(`(?m)^\s+(github\.com/ozontech/seq-db/[^\s(]+)\(`)
+var raceFrame = regexp.MustCompile(`(?m)^\s+(github\.com/ozontech/seq-db/\S+)\(\)$`)
 
 func runRace(rep *vh.Report, o vh.Opts, replayLine string) {
 	orc := vh.NewOracle("race.workload", "child built with -race: N writers (fm.Append), M searcher/fetcher goroutines and the maintenance loop (rotate -> seal -> release) on fractions of a few KiB; per-request assertions (known id, in range, satisfies query, fetched at once byte for byte), final quiescent comparison with the reference filter; non-trivial = a search that ran while a writer was inside Append")
@@ -309,7 +309,7 @@ func runRace(rep *vh.Report, o vh.Opts, replayLine string) {
 		fmt.Sscanf(replayLine, "race seed=%d writers=%d searchers=%d bulks=%d fracsize=%d", &c.seed, &c.writers, &c.searchers, &c.bulks, &c.fracsize)
 		cfgs = append(cfgs, c)
 	} else {
-		n := o.Pick(3, 12)
+		n := o.Pick(4, 16)
 		for i := 0; i < n; i++ {
 			cfgs = append(cfgs, cfg{int(o.Seed)*100 + i, 2 + i%4, 2 + (i/2)%4, o.Pick(150, 400), []int{600, 1500, 4000}[i%3]})
 		}
